@@ -39,37 +39,4 @@ func init() {
 		),
 	})
 
-	register(&Prop{
-		ID:        "C04",
-		Technique: "typestate over condition variables: predicate-write => broadcast, broadcast-holds-locker (lock-state simulation over SSA)",
-		Explanation: "every write to a predicate field of Buffer.cond (consumers, buffer, offset) in Put, NewConsumer, delete, commit, cleanupLogic is followed by a Broadcast before the lock is released; " +
-			"every Broadcast on Buffer.cond is issued with Buffer.mutex held (no lost wake-up of the cleaner), including the cooldown timer's re-broadcast; cooldown cells are guarded by the local mutex.",
-		NotDecided: "the delay bound itself (time); FixedBufferCleaner's quiescent size.",
-		Build: func(c *Ctx) []*an.Oblig {
-			return c.sel(func(o *an.Oblig) bool {
-				if isUndecided(o) || o.Rule == "ANCHOR" {
-					return true
-				}
-				if ruleIn(o, "S") && subjHas(o, "Buffer.") {
-					return true
-				}
-				if ruleIn(o, "SL") && subjHas(o, "Buffer.cond") {
-					return true
-				}
-				if ruleIn(o, "G") && subjHas(o, "cell:timer", "cell:broadcast") {
-					return true
-				}
-				return false
-			})
-		},
-		Floors: []Floor{
-			floorKey("S in Put", 1, "S/(*Buffer).Put/"),
-			floorKey("S in NewConsumer", 1, "S/(*Buffer).NewConsumer/"),
-			floorKey("S in delete", 1, "S/(*Buffer).delete/"),
-			floorKey("S in commit", 1, "S/(*Buffer).commit/"),
-			floorKey("S in cleanupLogic", 2, "S/(*Buffer).cleanupLogic/"),
-			floorRule("SL broadcast sites on Buffer.cond", "SL", 6),
-			floorKey("cooldown cells", 2, "G/(*Buffer).cleanup/cell:"),
-		},
-	})
 }
